@@ -386,6 +386,129 @@ Definition reads (cfg : config) (t : target) : list str :=
 (* the variables whose value is covered by a hash *)
 Definition hashed_reads (cfg : config) (t : target) : list str := c_pass_env cfg ++ opt_list (t_pass_env t).
 
+(* ==== round-2 follow-up ==== *)
+
+(* ---- (a) the three states of a variable of the invoking shell, and the two ways the code reads one ---- *)
+Inductive vstate := VUnset | VEmpty | VValue (v : str).        (* VValue v: v is not empty *)
+Definition vstate_of (caller : env) (k : str) : vstate :=
+  match lookup k caller with None => VUnset | Some [] => VEmpty | Some v => VValue v end.
+
+Inductive read_mode :=
+| RGetenv        (* x := os.Getenv(k): unset and empty are the same *)
+| RLookup.       (* if x, ok := os.LookupEnv(k); ok { ... }: unset is told apart from empty *)
+
+(* what a read in the given mode can tell about the state: None = "the guarded statement is skipped" *)
+Definition view_of (m : read_mode) (st : vstate) : option str :=
+  match m, st with
+  | RGetenv, VUnset => Some [] | RGetenv, VEmpty => Some [] | RGetenv, VValue v => Some v
+  | RLookup, VUnset => None | RLookup, VEmpty => Some [] | RLookup, VValue v => Some v
+  end.
+Definition read_view (m : read_mode) (caller : env) (k : str) : option str := view_of m (vstate_of caller k).
+
+(* one iteration of `for _, e := range *target.PassXxx` in TargetEnvironment, in the given mode *)
+Definition pass_step (m : read_mode) (caller : env) (a : env) (k : str) : env :=
+  match read_view m caller k with Some v => set k v a | None => a end.
+
+(* TargetEnvironment with the read mode of its two pass loops as a parameter (mu: pass_unsafe_env, mp: pass_env);
+   the unchanged code is target_env_m RGetenv RGetenv (Proof/C10_R2.v: target_env_m_unchanged; the modes come from the
+   source through Gen.C10Env.pass_read_modes). *)
+Definition target_env_m (mu mp : read_mode) (cfg : config) (t : target) (caller : env) : env :=
+  let e := general_env cfg caller in
+  let e := set (s "PKG") (t_pkg t) e in
+  let e := set (s "PKG_DIR") (t_pkg_dir t) e in
+  let e := set (s "NAME") (t_name t) e in
+  let e := if (match c_remote_url cfg with [] => true | _ => false end || t_local t)%bool
+           then set (s "CONFIG") (c_build_config cfg) (set (s "BUILD_CONFIG") (c_build_config cfg) e) else e in
+  let e := fold_left (pass_step mu caller) (opt_list (t_pass_unsafe t)) e in
+  fold_left (pass_step mp caller) (opt_list (t_pass_env t)) e.
+
+(* what ruleHash can see of the target-level pass_env variables when it reads them in mode mh *)
+Definition hashed_view (mh : read_mode) (t : target) (caller : env) : list (option str) :=
+  map (read_view mh caller) (opt_list (t_pass_env t)).
+
+(* ---- (b) the built-in remote_file action: request headers ---- *)
+Inductive hdr_mode :=
+| HTargetEnv      (* os.Expand(v, env.ReplaceEnvironment), env = BuildEnvironment(state, target, tmp) *)
+| HShellEnv.      (* os.ExpandEnv(v): the process environment *)
+
+Definition env_val0 (e : env) (k : str) : str := match lookup k e with Some v => v | None => [] end.   (* BuildEnv.ReplaceEnvironment *)
+Definition header_mapping (m : hdr_mode) (e caller : env) (k : str) : str :=
+  match m with HTargetEnv => env_val0 e k | HShellEnv => getenv caller k end.
+(* the value sent for a header whose declared value is raw *)
+Definition header_value (m : hdr_mode) (cfg : config) (t : target) (tmp : str) (caller : env) (raw : str) : str :=
+  os_expand (header_mapping m (build_env cfg t tmp caller) caller) raw.
+
+(* ---- (c) needsBuilding / Build over a history of invocations ----
+   One target, sources and secrets fixed.  key = the bytes the two hashes cover (Configuration.Hash's and ruleHash's
+   caller-dependent input).  The state is what is on disk in plz-out:
+     o_md   the target's metadata file exists (written by a successful build, never removed by Build)
+     o_out  the declared outputs exist, and under which key they were produced
+     o_rec  the recorded hash: an xattr ON the outputs ([build] xattrs = true) - it disappears with them - or the
+            .rule_hash_<file> side files (xattrs = false) - they stay when the outputs are removed. *)
+Definition hkey := (str * str)%type.
+Definition hkey_eqb (a b : hkey) : bool := (str_eqb (fst a) (fst b) && str_eqb (snd a) (snd b))%bool.
+Definition okey_eqb (a b : option hkey) : bool :=
+  match a, b with Some x, Some y => hkey_eqb x y | None, None => true | _, _ => false end.
+
+Record ostate := { o_md : bool; o_out : option hkey; o_rec : option hkey }.
+Definition o_init : ostate := {| o_md := false; o_out := None; o_rec := None |}.
+
+(* the reasons for which needsBuilding returns true, in statement order (Gen.C10Env.needs_building_checks) *)
+Inductive nb_check := NbMetadata | NbConfig | NbRule | NbSource | NbSecret | NbOutputs | NbForce.
+
+Definition nb_fires (st : ostate) (key : hkey) (c : nb_check) : bool :=
+  match c with
+  | NbMetadata => negb (o_md st)
+  | NbConfig => match o_rec st with Some r => negb (str_eqb (fst r) (fst key)) | None => true end
+  | NbRule => match o_rec st with Some r => negb (str_eqb (snd r) (snd key)) | None => true end
+  | NbSource | NbSecret => false        (* sources and secrets do not change in these histories *)
+  | NbOutputs => match o_out st with Some _ => false | None => true end
+  | NbForce => false                    (* no --rebuild *)
+  end.
+Definition needs_building (checks : list nb_check) (st : ostate) (key : hkey) : bool := existsb (nb_fires st key) checks.
+
+(* one `plz build` of the target under a caller with hashed bytes key, whose action succeeds iff ok.
+   removes = Build() calls RemoveOutputs when buildTarget fails.  Result: new state, (the action ran, exit status ok) *)
+Definition build_once (checks : list nb_check) (removes xattrs : bool) (key : hkey) (ok : bool) (st : ostate) : ostate * (bool * bool) :=
+  if needs_building checks st key then
+    if ok then ({| o_md := true; o_out := Some key; o_rec := Some key |}, (true, true))
+    else if removes then ({| o_md := o_md st; o_out := None; o_rec := if xattrs then None else o_rec st |}, (true, false))
+    else (st, (true, false))
+  else (st, (false, true)).
+
+(* a history: Some (key, ok) = build, None = rm -rf plz-out *)
+Definition hstep := option (hkey * bool).
+Definition run_step (checks : list nb_check) (removes xattrs : bool) (st : ostate) (x : hstep) : ostate * option (bool * bool) :=
+  match x with
+  | None => (o_init, None)
+  | Some (key, ok) => let '(st', r) := build_once checks removes xattrs key ok st in (st', Some r)
+  end.
+Fixpoint run_history (checks : list nb_check) (removes xattrs : bool) (st : ostate) (h : list hstep) : ostate * list (bool * bool * bool) :=
+  match h with
+  | [] => (st, [])
+  | x :: r =>
+      let '(st', o) := run_step checks removes xattrs st x in
+      let '(stf, obs) := run_history checks removes xattrs st' r in
+      (stf, match o with Some (ran, ok) => (ran, ok, match o_out st' with Some _ => true | None => false end) :: obs | None => obs end)
+  end.
+
+(* the unchanged code *)
+Definition nb_checks_unchanged : list nb_check := [NbMetadata; NbConfig; NbRule; NbSource; NbSecret; NbOutputs; NbForce].
+
+(* the hashed bytes of a target under a caller, and whether its action succeeds: fail_on = Some (v, bad): the command is
+   `[ "$v" != bad ] && ...`, evaluated in the environment the model says the action gets *)
+Definition key_of (cfg : config) (t : target) (caller : env) : hkey := (config_stream cfg caller, pass_env_stream t caller).
+Definition action_ok (fail_on : option (str * str)) (cfg : config) (t : target) (caller : env) : bool :=
+  match fail_on with
+  | None => true
+  | Some (v, bad) => negb (str_eqb (env_val0 (target_env cfg t caller) v) bad)
+  end.
+Definition history_of (fail_on : option (str * str)) (cfg : config) (t : target) (steps : list (option env)) : list hstep :=
+  map (option_map (fun c => (key_of cfg t c, action_ok fail_on cfg t c))) steps.
+
+Definition obs3_eqb (a b : bool * bool * bool) : bool :=
+  (Bool.eqb (fst (fst a)) (fst (fst b)) && Bool.eqb (snd (fst a)) (snd (fst b)) && Bool.eqb (snd a) (snd b))%bool.
+
 (* ---- correspondence cases ---- *)
 (* the same target with its env dict presented in another order (Go maps have no order) *)
 Definition with_env (t : target) (e : list (str * str)) : target :=
@@ -418,7 +541,15 @@ Inductive case :=
 | CActionEnv (sx : sbx) (cfg : config) (t : target) (tmp : str) (caller : env)
              (mode : sandbox_mode) (uid : str) (net mount : bool) (obs : option env)
 (* process.Executor.ExecWithTimeout on an arbitrary name=value list (duplicates, empty list) *)
-| CExecEnv (mode : sandbox_mode) (uid : str) (net mount : bool) (caller : env) (dir : str) (e : env) (obs : option env).
+| CExecEnv (mode : sandbox_mode) (uid : str) (net mount : bool) (caller : env) (dir : str) (e : env) (obs : option env)
+(* round 2: the value build.setHeaders puts on the request of a remote_file target for a header declared as raw
+   (in-process through the hook; end to end: what a local HTTP server received from the real plz) *)
+| CHeader (cfg : config) (t : target) (tmp : str) (caller : env) (raw obs : str)
+(* round 2: a history of `plz build` invocations of one target (Some caller) and `rm -rf plz-out` (None) on a repository
+   with [build] xattrs = xattrs; the command fails iff the variable fst fail_on has the value snd fail_on.
+   obs, per invocation: (the action ran, plz exited 0 / the target did not fail, the output exists afterwards) *)
+| CHistory (xattrs : bool) (fail_on : option (str * str)) (cfg : config) (t : target) (steps : list (option env))
+           (obs : list (bool * bool * bool)).
 
 Definition opt_env_eqb (m obs : option env) : bool :=
   match m, obs with
@@ -440,4 +571,7 @@ Definition check (c : case) : bool :=
   | CActionEnv sx cfg t tmp caller mode uid net mount obs =>
       opt_env_eqb (action_env mode uid net mount caller tmp (build_env_sb sx cfg t tmp caller)) obs
   | CExecEnv mode uid net mount caller dir e obs => opt_env_eqb (action_env mode uid net mount caller dir e) obs
+  | CHeader cfg t tmp caller raw obs => str_eqb (header_value HTargetEnv cfg t tmp caller raw) obs
+  | CHistory xattrs fail_on cfg t steps obs =>
+      list_eqb obs3_eqb (snd (run_history nb_checks_unchanged true xattrs o_init (history_of fail_on cfg t steps))) obs
   end.
